@@ -47,8 +47,9 @@ THEOREMS = [
     "Verif.C18.cast_never_wraps",
     "Verif.C18.cast_int_exact",
     "Verif.C18.cast_f32_close",
-    # "Verif.C18.cast_f32_exact_small_int",
-    # "Verif.C18.cast_f32_in_range",
+    "Verif.C18.cast_f32_exact_small_int",
+    "Verif.C18.cast_f32_in_range",
+    "Verif.C18.f32_relative_error",
     "Verif.C18.datetime_roundtrip",
     "Verif.C18.datetime_negative_refused",
     "Verif.C18.decode_sound",
